@@ -11,7 +11,7 @@ a forward loop over an overlapping section is caught.
 '''
 from pv import core, sem
 
-HEAD = '''subroutine s(a, b, c, d, e, g, v, w, ia, n, m, t, kout)
+HEAD = '''subroutine s(a, b, c, d, e, g, h, p5, v, w, ia, n, m, t, kout)
   integer, intent(in) :: n
   integer, intent(in) :: m
   integer, intent(inout) :: kout
@@ -22,6 +22,8 @@ HEAD = '''subroutine s(a, b, c, d, e, g, v, w, ia, n, m, t, kout)
   real, dimension(3,3), intent(inout) :: d
   real, dimension(2:7), intent(inout) :: e
   real, dimension(2:6), intent(inout) :: g
+  real, dimension(3,0:4), intent(inout) :: h
+  real, dimension(5), intent(inout) :: p5
   real, dimension(3), intent(inout) :: v
   real, dimension(3), intent(inout) :: w
   integer, dimension(4), intent(inout) :: ia
@@ -31,7 +33,7 @@ HEAD = '''subroutine s(a, b, c, d, e, g, v, w, ia, n, m, t, kout)
 '''
 TAIL = "end subroutine s\n"
 DOM = [("n", [0, 1, 2, 3]), ("m", [1, 2]), ("kout", [7]), ("t", [[1, 2], [-3, 1]])]
-LIVE = ["a", "b", "c", "d", "e", "g", "v", "w", "ia", "kout", "t"]
+LIVE = ["a", "b", "c", "d", "e", "g", "h", "p5", "v", "w", "ia", "kout", "t"]
 FILLS = [1, 3, 4]
 
 
@@ -55,6 +57,9 @@ ARRAY_ASSIGN = [
     # full ranges in different dimension positions of arrays with different lower bounds
     "g(:) = c(1,:)", "c(2,:) = g(:)", "g(:) = c(:,3) + c(0,:)", "c(:,1) = g(:) * 2.0",
     "e(:) = b(2:7) + e(:)", "g(:) = a(3:7)", "c(:,0) = c(4,:)", "d(:,1) = v(:) + d(2,:)",
+    "g(:) = h(1,:)", "h(2,:) = g(:)", "a(0:4) = h(3,:)", "v(:) = h(:,2)", "h(:,0) = v(:) + w(:)",
+    "c(0,:) = h(2,:) * 2.0", "h(1,:) = c(:,1)",
+    "p5(:) = h(1,:)", "p5(:) = h(2,:) + c(:,2)", "p5(:) = c(1,:) + g(:)", "a(1:5) = p5(:) + h(3,:)",
 ]
 WHOLE = ["a = b + 1.0", "v = w * t", "t = sum(v)", "a = 0.0", "d = d * 2.0",
          "v = d(:,1)", "e = 1.0", "kout = size(a) + ubound(e, 1) + lbound(e, 1)",
